@@ -39,39 +39,41 @@ Section DepGraph.
   Definition is_kind_namespace (i : id) : bool :=
     String.eqb (grp i) "" && String.eqb (knd i) "Namespace".
 
-  (* the `crds` map of addCRDEdges: key GroupKind.String(), a later object
-     overwrites an earlier one with the same key *)
-  Definition crd_lookup (objs : list obj) (key : string) : option V :=
-    fold_left (fun acc o =>
-                 if is_crd (idof (oid o)) then
-                   match ocrd o with
-                   | Some (g, k) => if String.eqb (gk_string g k) key then Some (oid o) else acc
-                   | None => acc
-                   end
-                 else acc) objs None.
+  (* what an object provides to the `crds` map of addCRDEdges under a key
+     (GroupKind.String() of its spec), and to the `namespaces` map of
+     addNamespaceEdges under a name *)
+  Definition f_crd (key : string) (o : obj) : option V :=
+    if is_crd (idof (oid o)) then
+      match ocrd o with
+      | Some (g, k) => if String.eqb (gk_string g k) key then Some (oid o) else None
+      | None => None
+      end
+    else None.
 
+  Definition f_ns (name : string) (o : obj) : option V :=
+    if is_kind_namespace (idof (oid o)) && String.eqb (nm (idof (oid o))) name
+    then Some (oid o) else None.
+
+  (* crds[key] / namespaces[name]: ALL providers, appended in input order *)
+  Definition providers (f : obj -> option V) (objs : list obj) : list V :=
+    flat_map (fun o => match f o with Some t => [t] | None => [] end) objs.
+
+  Definition crd_lookup (objs : list obj) (key : string) : list V := providers (f_crd key) objs.
+  Definition ns_lookup (objs : list obj) (name : string) : list V := providers (f_ns name) objs.
+
+  (* addCRDEdges: an edge to every CRD object defining the object's group/kind *)
   Definition crd_edges (objs : list obj) : list (V * V) :=
     flat_map (fun o =>
                 let i := idof (oid o) in
-                match crd_lookup objs (gk_string (grp i) (knd i)) with
-                | Some to => [(oid o, to)]
-                | None => []
-                end) objs.
+                map (fun to => (oid o, to)) (crd_lookup objs (gk_string (grp i) (knd i)))) objs.
 
-  (* the `namespaces` map of addNamespaceEdges: key obj.GetName() *)
-  Definition ns_lookup (objs : list obj) (name : string) : option V :=
-    fold_left (fun acc o =>
-                 if is_kind_namespace (idof (oid o)) && String.eqb (nm (idof (oid o))) name
-                 then Some (oid o) else acc) objs None.
-
+  (* addNamespaceEdges: an edge to every Namespace-kind object named like the
+     object's namespace *)
   Definition ns_edges (objs : list obj) : list (V * V) :=
     flat_map (fun o =>
                 let i := idof (oid o) in
                 if negb (String.eqb (ns i) "") then
-                  match ns_lookup objs (ns i) with
-                  | Some to => [(oid o, to)]
-                  | None => []
-                  end
+                  map (fun to => (oid o, to)) (ns_lookup objs (ns i))
                 else []) objs.
 
   (* inner loop of addDependsOnEdges for one object: a repeated reference is
@@ -144,14 +146,12 @@ Section DepGraph.
     | _, _ => true
     end.
 
-  (* ReverseSortObjs: `if err != nil { return s, err }` hands back the
-     un-reversed sets whenever SortObjs reports any error *)
+  (* ReverseSortObjs: `s, err := SortObjs(objs); ReverseSetList(s); return s, err`
+     — the sets are reversed whether or not there is an error *)
   Definition reverse_sort_objs (objs : list obj) : option sorted_objs :=
     match sort_objs objs with
     | None => None
-    | Some s =>
-        if has_error s then Some s
-        else Some (mkSorted (reverse_set_list (s_sets s)) (s_cyc s) (s_bad s))
+    | Some s => Some (mkSorted (reverse_set_list (s_sets s)) (s_cyc s) (s_bad s))
     end.
 End DepGraph.
 
@@ -166,6 +166,9 @@ Arguments mkSorted {V} s_sets s_cyc s_bad.
 Arguments s_sets {V} s.
 Arguments s_cyc {V} s.
 Arguments s_bad {V} s.
+Arguments f_crd {V} idof key o.
+Arguments f_ns {V} idof name o.
+Arguments providers {V} f objs.
 Arguments crd_lookup {V} idof objs key.
 Arguments crd_edges {V} idof objs.
 Arguments ns_lookup {V} idof objs name.
